@@ -33,8 +33,9 @@ const noSVDO = "dgesvd: not coded for overwrite"
 //	jobU == lapack.SVDOverwrite The first min(m,n) columns of U are written into a
 //	jobU == lapack.SVDNone      The columns of U are not computed.
 //
-// The behavior is the same for jobVT and the rows of Vᵀ. At most one of jobU
-// and jobVT can equal lapack.SVDOverwrite, and Dgesvd will panic otherwise.
+// The behavior is the same for jobVT and the rows of Vᵀ. lapack.SVDOverwrite
+// is not implemented: Dgesvd will panic if jobU or jobVT is
+// lapack.SVDOverwrite.
 //
 // On entry, a contains the data for the m×n matrix A. During the call to Dgesvd
 // the data is overwritten. On exit, A contains the appropriate singular vectors
